@@ -261,8 +261,6 @@ def check_c01(ctx, sched):
             if rq is None:
                 m = d.ops[opk].get("m", {}).get("method") if 0 <= opk < len(d.ops) else None
                 site = f"response id {f.get('id')!r} emitted while handling notification {m}"
-                if "error" in f:
-                    site += " / " + err_site(f)
                 violation("C01", "spurious-response", site, str(strip_tb(f))[:500], op=opk)
             else:
                 violation("C01", "pairing", f"response id mismatch for {rq[1]}",
